@@ -264,6 +264,12 @@ func Setup(root string, sh Shape, mat *Material) (*Case, error) {
 	return c, nil
 }
 
+// Files returns the input files of the sandbox, one per Shape.Inputs entry (same order).
+func (c *Case) Files() []string { return append([]string(nil), c.files...) }
+
+// Material returns the generated inputs the sandbox was built from.
+func (c *Case) Material() *Material { return c.mat }
+
 // Run performs the installation, recovering a panic.
 func (c *Case) Run() (err error, panicVal any) {
 	defer func() {
